@@ -608,6 +608,89 @@ func c19DuplexBody(x *engine.X) {
 	x.Outcome(fmt.Sprintf("duplex/%d/%v/%v", sz, readFirst, replyEarly))
 }
 
+// c19HangupBody: the writer closes right after its last item. A read is parked in the poller (nothing to read yet),
+// the writer writes 1-3 items in one go and closes its end at once, so that the data and the hang-up reach the reader in
+// ONE poll event; every item must still be returned (each read re-issued from the previous completion), and only then
+// the end of the stream reported, once.
+func c19HangupBody(x *engine.X) {
+	ioc, err := sonic.NewIO()
+	if err != nil {
+		engine.HarnessError("NewIO: %v", err)
+	}
+	r, w, _ := kern.Pipe(65536)
+	f, err := sonic.Open(ioc, fmt.Sprintf("/proc/self/fd/%d", r), syscall.O_RDONLY|syscall.O_NONBLOCK, 0)
+	syscall.Close(r)
+	if err != nil {
+		engine.HarnessError("Open: %v", err)
+	}
+	wOpen := true
+	x.Defer(func() {
+		f.Close()
+		if wOpen {
+			syscall.Close(w)
+		}
+		ioc.Close()
+	})
+	src, dst := sonic.NewByteBuffer(), sonic.NewByteBuffer()
+	cc, _ := sonic.NewCodecConn[[]byte, []byte](f, frame.NewCodec(src), src, dst)
+	shapes := [][]int{{5}, {0}, {5, 300}, {300, 5, 1}, {4093}, {4092, 7}}
+	sizes := shapes[x.Pick(len(shapes), "items written before the writer closes")]
+	parkedFirst := x.Pick(2, "the first read is started: before anything is written (parked) | after the writer has closed") == 0
+	x.Note("hang-up after items %v, read parked first: %v", sizes, parkedFirst)
+	x.Nontrivial()
+	var got [][]byte
+	var finalErr error
+	ends := 0
+	var read func()
+	read = func() {
+		cc.AsyncReadNext(func(err error, it []byte) {
+			if err != nil {
+				ends++
+				finalErr = err
+				return
+			}
+			got = append(got, append([]byte{}, it...))
+			read()
+		})
+	}
+	if parkedFirst {
+		read()
+		if len(got) != 0 || ends != 0 {
+			x.Fail("codecconn.hangup/early-completion", "a read on an empty pipe completed at once")
+		}
+	}
+	var wire []byte
+	var want [][]byte
+	for i, sz := range sizes {
+		it := payloadBytes(i+1, sz)
+		want = append(want, it)
+		wire = append(wire, refEncode(it)...)
+	}
+	if n, err := syscall.Write(w, wire); err != nil || n != len(wire) {
+		engine.HarnessError("pipe write: %d %v", n, err)
+	}
+	syscall.Close(w)
+	wOpen = false
+	if !parkedFirst {
+		read()
+	}
+	for i := 0; i < 20 && ends == 0; i++ {
+		ioc.PollOne()
+	}
+	if len(got) != len(want) {
+		x.Fail("codecconn.hangup/items-lost", "the writer wrote %d items (%v bytes) and closed; the reader was given %d before the stream ended with %v", len(want), sizes, len(got), finalErr)
+	}
+	for i := range want {
+		if string(got[i]) != string(want[i]) {
+			x.Fail("codecconn.read/item-bytes", "item %d of %d bytes differs from what was written", i, len(want[i]))
+		}
+	}
+	if ends != 1 || finalErr == nil {
+		x.Fail("codecconn.hangup/end-not-reported-once", "after the last item the end of the stream was reported %d times (err=%v)", ends, finalErr)
+	}
+	x.Outcome(fmt.Sprintf("hangup/%d items/%v", len(sizes), parkedFirst))
+}
+
 func c19DFS(tier, which string) *engine.DFS {
 	dev := 2
 	if tier == "thorough" {
@@ -620,6 +703,8 @@ func c19DFS(tier, which string) *engine.DFS {
 		return &engine.DFS{Name: "read@" + tier, Body: c19ReadBody, Threads: 16, ShardDepth: 3, MaxDeviations: dev, MaxPoints: 700}
 	case "fifo":
 		return &engine.DFS{Name: "fifo@" + tier, Body: c19FifoBody, Procs: 4, WorkerProcs: 1, ShardDepth: 1, MaxDeviations: 2, MaxPoints: 200, HangTimeout: 30 * time.Second}
+	case "hangup":
+		return &engine.DFS{Name: "hangup@" + tier, Body: c19HangupBody, Procs: 4, WorkerProcs: 1, ShardDepth: 1, MaxDeviations: 0, MaxPoints: 50, HangTimeout: 60 * time.Second}
 	case "duplex":
 		return &engine.DFS{Name: "duplex@" + tier, Body: c19DuplexBody, Procs: 4, WorkerProcs: 1, ShardDepth: 1, MaxDeviations: 0, MaxPoints: 50, HangTimeout: 60 * time.Second}
 	case "allsizes":
@@ -632,7 +717,7 @@ func c19DFS(tier, which string) *engine.DFS {
 func C19(tier string) *engine.Report {
 	rep := engine.NewReport("C19", tier, "exploration")
 	var tot engine.DFSTotals
-	for _, w := range []string{"write", "read", "allsizes", "hostile", "fifo", "duplex"} {
+	for _, w := range []string{"write", "read", "allsizes", "hostile", "fifo", "duplex", "hangup"} {
 		tot.Add(c19DFS(tier, w).Run(), rep)
 	}
 	for _, v := range c19LimitBoundary() {
@@ -641,7 +726,7 @@ func C19(tier string) *engine.Report {
 	rep.Coverage["limit_boundary"] = "payloads of exactly the limit (1 GiB) and limit+1 through Encode; headers declaring limit and limit+1 through Decode"
 	tot.Fill(rep, "payload sequences (<=3 items over 6 sizes) written through a real CodecConn+frame.Codec (blocking/async, partial acceptance, deferred completion) and compared byte-for-byte with the reference encoding; "+
 		"the reference-encoded stream read back through a second CodecConn under all cut sets of up to N cuts around every boundary/header byte, whole and byte-by-byte, blocking/async inline/deferred; "+
-		"items of 3-5 pages written asynchronously through a real one-page pipe (a sonic File) whose reader drains a page or everything between polls; a CodecConn used in both directions over real TCP (a read pending while an item of 5 B / 70 kB / 1 MiB is written and parks; the peer answers after or during the write); hostile 4-byte prefixes (all over-limit ones and those <=128 KiB) x tails x all cut sets; non-trivial = segmented, partial, deferred or multi-item", 2)
+		"items of 3-5 pages written asynchronously through a real one-page pipe (a sonic File) whose reader drains a page or everything between polls; a CodecConn used in both directions over real TCP (a read pending while an item of 5 B / 70 kB / 1 MiB is written and parks; the peer answers after or during the write); a FIFO whose writer writes 1-3 items and closes at once (data and hang-up in one poll event, read parked before or started after); hostile 4-byte prefixes (all over-limit ones and those <=128 KiB) x tails x all cut sets; non-trivial = segmented, partial, deferred or multi-item", 2)
 	return rep
 }
 
